@@ -51,7 +51,7 @@ func init() {
 		Rule: "case = (validator set, commit spec, verify block id/height/chain): for every set size 1..6 x 5 power profiles (equal, ascending, one dominant, total divisible by 3, near MaxTotalVotingPower) " +
 			"every subset of signing validators x every corruption kind at every position (bad/short/empty/long signature, foreign key, swapped or duplicated entries, wrong height/round/type on one or on all entries, " +
 			"signed-vs-claimed field mismatch, stray block or nil precommits, wrong/nil commit block id, wrong size, forged address/index fields, wrong chain id, tampered timestamp); " +
-			"VerifyFutureCommit over every (old subset, new subset, signer subset) of a 4-key (5 in thorough) universe x power-profile pairs x {clean, 2 seeded corruptions}; plus seeded random specs with two stacked corruptions. " +
+			"VerifyFutureCommit over every (old subset, new subset, signer subset) of a 4-key (6 in thorough) universe x power-profile pairs x {clean, 2 seeded corruptions}; plus seeded random specs with two stacked corruptions. " +
 			"well-formed = non-nil block, one entry per validator, requested block id, all present entries precommits of the requested height and one round, all present signatures valid for the validator at that index; " +
 			"non-trivial = a corruption is present or toggling a single validator's precommit flips the 2/3 decision; distinct by the full spec",
 		Run: run,
@@ -433,6 +433,9 @@ var corruptions = []corruption{
 	}},
 	{"height-one", true, func(s *cspec, p int) bool { s.Entries[p].H++; s.Entries[p].Sig.H++; return true }},
 	{"height-signed-other", true, func(s *cspec, p int) bool { s.Entries[p].Sig.H++; return true }},
+	{"height-claimed-other", true, func(s *cspec, p int) bool { s.Entries[p].H++; return true }}, // signed for the commit height, labelled with another
+	{"round-claimed-other", true, func(s *cspec, p int) bool { s.Entries[p].R++; return true }},
+	{"type-claimed-other", true, func(s *cspec, p int) bool { s.Entries[p].T = byte(types.PrevoteType); return true }},
 	{"round-one", true, func(s *cspec, p int) bool { s.Entries[p].R++; s.Entries[p].Sig.R++; return true }},
 	{"round-signed-other", true, func(s *cspec, p int) bool { s.Entries[p].Sig.R++; return true }},
 	{"type-prevote", true, func(s *cspec, p int) bool {
@@ -455,6 +458,22 @@ var corruptions = []corruption{
 	{"signed-other-chain", true, func(s *cspec, p int) bool { s.Entries[p].Sig.Chain = "other-chain"; return true }},
 	{"address-forged", true, func(s *cspec, p int) bool { s.Entries[p].Addr = others(s, p); s.Forged = true; return true }},
 	{"address-outsider", true, func(s *cspec, p int) bool { s.Entries[p].Addr = len(keyPool) - 1; s.Forged = true; return true }},
+	{"address-forged-old", true, func(s *cspec, p int) bool { // (future commits) claim the address of an old-set validator that did not sign
+		if s.Old == nil {
+			return false
+		}
+		for _, m := range s.Old.Members {
+			signedIt := false
+			for _, e := range s.Entries {
+				signedIt = signedIt || (e.Present && e.Signer == m)
+			}
+			if !signedIt {
+				s.Entries[p].Addr, s.Forged = m, true
+				return true
+			}
+		}
+		return false
+	}},
 	{"index-forged", true, func(s *cspec, p int) bool { s.Entries[p].Index += 3; return true }},
 	// whole-commit corruptions
 	{"height-all", false, func(s *cspec, _ int) bool {
@@ -589,7 +608,7 @@ func run(c *vf.Ctx) {
 	c.Logf("VerifyCommit sweep done")
 
 	// ---- VerifyFutureCommit: every (old, new, signers) over a small key universe
-	u := c.N(4, 5)
+	u := c.N(4, 6)
 	type fjob struct {
 		old, nw   uint
 		oldP, nwP int
@@ -622,7 +641,7 @@ func run(c *vf.Ctx) {
 		}
 		return v
 	}
-	futureKinds := []string{"stray-block", "stray-nil", "sig-flip", "foreign-key", "address-forged", "address-outsider", "height-all", "round-one", "type-prevote", "swap-entries", "duplicate-entry", "verify-other-block", "block-signed-other", "index-forged"}
+	futureKinds := []string{"address-forged-old", "address-forged-old", "round-claimed-other", "type-claimed-other", "stray-block", "stray-nil", "sig-flip", "foreign-key", "address-forged", "address-outsider", "height-all", "round-one", "type-prevote", "swap-entries", "duplicate-entry", "verify-other-block", "block-signed-other", "index-forged"}
 	byName := map[string]corruption{}
 	for _, cr := range corruptions {
 		byName[cr.name] = cr
@@ -659,7 +678,7 @@ func run(c *vf.Ctx) {
 	c.Logf("VerifyFutureCommit sweep done")
 
 	// ---- random specs: random sets (incl. huge powers), two stacked corruptions
-	c.Parallel(c.N(15000, 400000), 16, 1<<30, func(i int, r *rand.Rand) {
+	c.Parallel(c.N(40000, 1500000), 16, 1<<30, func(i int, r *rand.Rand) {
 		tl, sc, sets := tally{}, sigCache{}, map[string]*types.ValidatorSet{}
 		defer tl.flush(c)
 		n := 1 + r.IntN(6)
@@ -734,6 +753,10 @@ func run(c *vf.Ctx) {
 		c.RequireCounter("oracle_"+why, 20)
 	}
 	for _, cr := range corruptions {
+		if cr.name == "address-forged-old" {
+			c.RequireCounter("kind_future/"+cr.name, 50)
+			continue
+		}
 		c.RequireCounter("kind_"+cr.name, 5)
 	}
 }
